@@ -151,8 +151,7 @@ def run(ck):
         errs = per.get(mod, [])
         if want == "fail":
             nfail += 1
-            inmacro = [e for e in errs if "custom attribute panicked" in e]
-            got = {k for k in ("CommandExists", "QueryExists") for e in inmacro if k in e}
+            inmacro, got = collision_errors(errs)
             ok = bool(inmacro) and bool(got & kinds) and got <= kinds
             ck.judge(ok, "C14-W", "case:%s:rejected" % mod, "%s %s rejected inside the macro with %s" % (decls, list(flags), sorted(got)),
                      "colliding declarations %s %s: %s" % (decls, list(flags), ("compile without error (one handler is silently shadowed)" if not errs else
@@ -164,6 +163,27 @@ def run(ck):
     ck.floor("C14-W", "colliding cases", nfail, 14 + min(n, 25))
     ck.floor("C14-W", "building twins/controls", nbuild, 14 + min(n, 25))
     ck.extra.update({"programs": len(expect), "colliding_cases": nfail, "building_cases": nbuild})
+
+
+def collision_errors(errs):
+    """The errors of one case module that are the macro's rejection of a collision, and the kinds they name. Two forms: the
+    macro panics with the Debug text of its error (`custom attribute panicked ... CommandExists`), or it emits a diagnostic
+    of its own (an error without a compiler error code) that says which kind of handler already exists."""
+    import re
+    inmacro = []
+    got = set()
+    for e in errs:
+        ks = set()
+        if "custom attribute panicked" in e:
+            ks = {k for k in ("CommandExists", "QueryExists") if k in e}
+        elif not re.search(r"error\[E\d+\]", e):
+            for m in re.finditer(r"(?i)\b(command|query)\b[^.\n`]{0,30}\bexists?\b|\b(Command|Query)Exists\b", e):
+                w = (m.group(1) or m.group(2)).lower()
+                ks.add("QueryExists" if w == "query" else "CommandExists")
+        if ks:
+            inmacro.append(e)
+            got |= ks
+    return inmacro, got
 
 
 def rule_S(ck):
@@ -191,6 +211,9 @@ def rule_S(ck):
             unsupported.append("%s: %s" % (b["def"], u))
             continue
         name = b["def"].split("::")[-1]
+        # the vacancy rule concerns the functions that fill leaf slots; one that only reads them (to compare or merge
+        # finished subtrees, to emit them) occupies nothing
+        writes_slots = any(e[0] == "store" and e[1][0] == "field" and e[1][2] in ("query", "command") for x in ex for e in x.effects)
         for i, x in enumerate(ex):
             stores = [e for e in x.effects if e[0] == "store" and e[1][0] == "field" and e[1][2] in ("query", "command")]
             isq = None
@@ -207,14 +230,21 @@ def rule_S(ck):
                          "leaf slot `%s` is written %s (is_query=%s)" % (slot[2], "without a vacancy test" if d is None else "although occupied" if d else "but the kind does not match", isq),
                          data=pathsum.show_exit(x)[:1500])
             for c in x.conds:
+                if not writes_slots:
+                    break
                 if c[0] == "is" and c[2] == SOME and c[3] and c[1][0] == "field" and c[1][2] in ("query", "command") and c[1][1][0] != "param":
                     n_occ += 1
                     want = ("ctor", ERR, (("ctor", TERR + "::" + ("QueryExists" if c[1][2] == "query" else "CommandExists"), ()),))
-                    ok = x.kind in ("return", "err") and x.value == want and not stores and (isq == (c[1][2] == "query"))
+                    # the variant decides; it may carry a payload (the name of the declaration already there, for the diagnostic)
+                    v_ = x.value
+                    same_variant = (v_ is not None and v_[0] == "ctor" and v_[1] == ERR and len(v_[2]) == 1 and v_[2][0][0] == "ctor" and v_[2][0][1] == want[2][0][1])
+                    ok = x.kind in ("return", "err") and same_variant and not stores and (isq == (c[1][2] == "query"))
                     ck.judge(ok, "C14-S", "%s:occupied#%d:%s" % (name, n_occ, c[1][2]), "occupied %s slot -> %s" % (c[1][2], show_term(want)),
                              "occupied `%s` slot does not return the matching error: %s %s" % (c[1][2], x.kind, show_term(x.value)), data=pathsum.show_exit(x)[:1500])
             for e in x.effects:
                 if e[0] == "call" and e[1].endswith("::entry") and len(e[2]) == 2:
+                    if not any(u[0] == "field" and u[2] == "children" for u in pathsum.subterms(e[2][0]) if u):
+                        continue        # a map of its own (e.g. an index of finished subtrees), not the children of a node
                     k = e[2][1]
                     while k[0] == "call" and k[1].split("::")[-1] in ("clone", "to_owned", "to_string", "into") and k[2]:
                         k = k[2][0]
